@@ -37,3 +37,18 @@ Print Assumptions C18_fused_read_truthful.
 Theorem C18_fusion_buckets_cover : forall (l : list nat) step, 1 <= step -> concat (fusion_buckets l step) = l.
 Proof. exact fusion_buckets_concat. Qed.
 Print Assumptions C18_fusion_buckets_cover.
+
+(* divisions from parquet statistics (calculate_divisions=True): files sorted by (min, max), accepted only when strictly
+   separated; the unfixed acceptance test (defect D30) is refuted *)
+From DX Require Import MinMax MinMaxProofs.
+Theorem C18_statistics_divisions_truthful : forall l parts d p,
+  stats_ok l parts -> wf_stats l -> stats_divisions l = Some (d, p) ->
+  truthful d (reindex parts p []) /\ Permutation.Permutation p (seq 0 (length parts)).
+Proof. exact stats_truthful. Qed.
+Print Assumptions C18_statistics_divisions_truthful.
+
+Theorem C18_statistics_old_refuted : exists l parts,
+  stats_ok l parts /\ wf_stats l /\
+  ~ truthful (fst (stats_divisions_old l)) (reindex parts (snd (stats_divisions_old l)) []).
+Proof. exact stats_old_refuted. Qed.
+Print Assumptions C18_statistics_old_refuted.
